@@ -189,6 +189,17 @@ CLAIMED = {
              'problem infeasible) is a recorded known finding; kernel_basis() itself (SVD/QR) is an input of the model.',
         technique='Lean 4 proof (option equivalences on the row model, exp-cone monotonicity, exact rank) + model/implementation correspondence check across the option lattice',
         design_ref='DESIGN.md 4/C19'),
+    'C05': dict(
+        text='PARTIAL (strong duality observed only; extension to zero coordinates proved for X = R^n). Theorems about a Lean model of '
+             'Polynomial.sig_rep, create_covers, standard_multiplier, poly_primal / poly_dual and make_poly_lagrangian: the signomial '
+             'representative is a minorant of p at every real point without zero coordinates, in every orthant, for numeric coefficients and '
+             'for EVERY assignment of variable coefficients satisfying the side constraints; covers never contain odd rows; even modulators '
+             'are nonnegative; the dual construction admits the signed moment vectors of every real point; a bound valid off the coordinate '
+             'hyperplanes extends to all of R^n. The real sig_rep / create_covers / poly_relaxation / make_poly_lagrangian outputs are '
+             'compared exactly with the model; solved relaxations are audited at points of every orthant including zero coordinates.',
+        note='composition with C01/C02/C03 (SAGE soundness, moments) gives the bound; strong duality observed only.',
+        technique='Lean 4 proof (real analysis of monomials on orthants, signomial-representative algebra) + model/implementation correspondence check',
+        design_ref='DESIGN.md 4/C05'),
 }
 
 NOT_YET = 'check not built yet in this session (planned, see DESIGN.md section 6); not claimed until its theorems and correspondence exist'
